@@ -6,7 +6,9 @@ package main
 // items, concurrency 0..2, with and without a post function.
 
 import (
+	"context"
 	"fmt"
+	"github.com/mark3labs/flyt/zzvrt/core"
 
 	flyt "github.com/mark3labs/flyt"
 )
@@ -93,6 +95,37 @@ func genC18(tier string) []Scenario {
 	for _, sh := range []int{shNil, shNoPrep, shAny} {
 		sc := batchScn{name: fmt.Sprintf("action batch n=0 shape=%s", shapeNames[sh]), n: 0, c: 0, budget: 1, shape: sh, execMenu: okMenu, postMenu: posts, bound: 0, chkAction: true}
 		out = append(out, sc.scenario())
+	}
+	// degenerate flows used as nodes: no start node at all, or a start node whose only edge is nil.
+	// Whatever flyt makes of them, "success with an empty action" is not an option.
+	for _, form := range []string{"NewFlow(nil)", "NewFlow(nil) inside a flow", "NewFlow(nil) retried"} {
+		form := form
+		body := func() {
+			store := flyt.NewSharedStore()
+			f := flyt.NewFlow(nil)
+			var a flyt.Action
+			var err error
+			witness := false
+			switch form {
+			case "NewFlow(nil)":
+				a, err = flyt.Run(ctxBackground(), f, store)
+			case "NewFlow(nil) retried":
+				flyt.WithMaxRetries(2)(f.BaseNode)
+				a, err = flyt.Run(ctxBackground(), f, store)
+			default:
+				w := flyt.NewNode().WithExecFuncAny(func(context.Context, any) (any, error) { witness = true; return nil, nil })
+				outer := flyt.NewFlow(f).Connect(f, flyt.DefaultAction, w)
+				a, err = flyt.Run(ctxBackground(), outer, store)
+				if err == nil && !witness {
+					core.Problem("%s: the run succeeded but the connection on the default action was not followed", form)
+				}
+			}
+			core.Logf("%s returned (%q, %v)", form, a, err)
+			if (err == nil) == (a == "") {
+				core.Problem("%s returned (%q, %v): a successful run reports a non-empty action, a failed one none", form, a, err)
+			}
+		}
+		out = append(out, Scenario{Name: "action degenerate " + form, Bound: 0, Body: body, Check: stdCheck(func() string { return form })})
 	}
 	return out
 }
